@@ -208,11 +208,17 @@ def import_program(rnd, g):
     files = {}
     for v in range(n):
         lines = []
-        for w in sorted(g[v]):
+        order = sorted(g[v])
+        rnd.shuffle(order)  # which import comes last is not tied to the numbering
+        for w in order:
             lines.append('import "m%d.emb" as i%d' % (w, w))
+        if rnd.random() < 0.3:
+            # one more import that is on no cycle, before or after the others
+            lines.insert(rnd.choice([0, len(lines)]), 'import "leaf.emb" as leaf')
         lines.append("struct S%dx:" % v)
         lines.append("  0 [+1]  UInt  a")
         files["m%d.emb" % v] = "\n".join(lines) + "\n"
+    files["leaf.emb"] = "struct Leaf:\n  0 [+1]  UInt  a\n"
     return files, "m0.emb"
 
 
